@@ -756,7 +756,13 @@ class Harness:
                 if w is None or w[0] != 'd':
                     fails.append(self._fail('C02.dir_missing', 'directory missing after rollback', {**info, 'path': self.relp(k)}))
                     return fails
-        closure = self.mb.prev.dirs_closure(self.R)
+        # L4: directories the previous committed build recorded as created may reappear empty - but only where
+        # their parent exists (a reappearing *ancestor* that no build recorded would change later builds)
+        closure = set()
+        for d in sorted(self.mb.prev.created_dirs, key=len):
+            par = os.path.dirname(d)
+            if (par in pre and pre[par][0] == 'd') or par in closure:
+                closure.add(d)
         for k, v in sorted(post.items()):
             if k in pre:
                 continue
